@@ -204,6 +204,14 @@ pub fn yield_now(label: &'static str) {
     on_yield(label);
 }
 
+/// The calling thread changed shared state outside a10 (e.g. the simulated
+/// kernel published a completion): waiting threads may be able to continue.
+pub fn note_progress() {
+    if let Some(s) = active() {
+        s.inner.lock().unwrap_or_else(|e| e.into_inner()).epoch += 1;
+    }
+}
+
 /// A scheduling point of a thread that has nothing to do right now: it is not
 /// scheduled again before some other thread has taken a step.
 pub fn yield_idle(label: &'static str) {
